@@ -1061,6 +1061,20 @@ fn cast_into_memory(
     // if it wasn't variant -> enum, we unwrap the variant fully and check for other casts
     cast_from = cast_from.absolute_intern_ty(true);
 
+    // which side of an error union a value goes to is decided by its type as written: without its
+    // distinct wrappers a `distinct i32` error would also fit a `distinct i32` payload
+    let union_member_from = match cast_to.as_ref() {
+        Ty::ErrorUnion {
+            error_ty,
+            payload_ty,
+        } if cast_from_original.can_fit_into(payload_ty)
+            || cast_from_original.can_fit_into(error_ty) =>
+        {
+            cast_from_original
+        }
+        _ => cast_from,
+    };
+
     match (cast_from.as_ref(), cast_to.as_ref()) {
         (
             Ty::AnonStruct { .. } | Ty::ConcreteStruct { .. },
@@ -1259,7 +1273,7 @@ fn cast_into_memory(
             );
         }
         // ok to error union
-        (_, Ty::ErrorUnion { payload_ty, .. }) if cast_from.can_fit_into(payload_ty) => {
+        (_, Ty::ErrorUnion { payload_ty, .. }) if union_member_from.can_fit_into(payload_ty) => {
             return Some(cast_payload_into_tagged_union(
                 meta_tys,
                 module,
@@ -1275,7 +1289,7 @@ fn cast_into_memory(
             ));
         }
         // error to error union
-        (_, Ty::ErrorUnion { error_ty, .. }) if cast_from.can_fit_into(error_ty) => {
+        (_, Ty::ErrorUnion { error_ty, .. }) if union_member_from.can_fit_into(error_ty) => {
             return Some(cast_payload_into_tagged_union(
                 meta_tys,
                 module,
